@@ -32,6 +32,8 @@ inductive SAct
   | resRead (ty : Nat)
   | insert (e : Ref) (ty v : Nat)
   | mutate (e : Ref) (ty v : Nat)
+  | mutNoReact (e : Ref) (ty v : Nat)
+  | resNoReact (ty v : Nat)
   | setNeq (e : Ref) (ty v : Nat)
   | readComp (e : Ref) (ty : Nat)
   | remove (e : Ref) (ty : Nat)
@@ -119,6 +121,8 @@ def parseAct (toks : List String) : Option SAct :=
   | ["resread", ty] => ty.toNat?.map .resRead
   | ["insert", e, ty, v] => do pure (.insert (← parseRef e) (← ty.toNat?) (← v.toNat?))
   | ["mutate", e, ty, v] => do pure (.mutate (← parseRef e) (← ty.toNat?) (← v.toNat?))
+  | ["mutnr", e, ty, v] => do pure (.mutNoReact (← parseRef e) (← ty.toNat?) (← v.toNat?))
+  | ["resnr", ty, v] => do pure (.resNoReact (← ty.toNat?) (← v.toNat?))
   | ["setneq", e, ty, v] => do pure (.setNeq (← parseRef e) (← ty.toNat?) (← v.toNat?))
   | ["read", e, ty] => do pure (.readComp (← parseRef e) (← ty.toNat?))
   | ["remove", e, ty] => do pure (.remove (← parseRef e) (← ty.toNat?))
@@ -246,6 +250,8 @@ def resolveAct (sc : Scenario) (s : St) : SAct → Option Act
   | .resRead ty => some (.resRead ty)
   | .insert r ty v => (resolveRef s r).map (Act.insert · ty v)
   | .mutate r ty v => (resolveRef s r).map (Act.mutate · ty v)
+  | .mutNoReact r ty v => (resolveRef s r).map (Act.mutNoReact · ty v)
+  | .resNoReact ty v => some (.resNoReact ty v)
   | .setNeq r ty v => (resolveRef s r).map (Act.setNeq · ty v)
   | .readComp r ty => (resolveRef s r).map (Act.readComp · ty)
   | .remove r ty => (resolveRef s r).map (Act.remove · ty)
